@@ -46,8 +46,26 @@ def dictRows (c : Case) : Verdict :=
       else .ok tag
     else
       let mBack := lookup ntab nm
-      if mBack ≠ implBack then .diff tag s!"back={showOpt mBack}"
+      let nameS := String.ofList (nameB.map (fun b => Char.ofNat b.toNat))
+      -- an alias: the real value-indexed map does not give this name back for the value
+      let isAlias := implVName ≠ some nm
+      let inGen := Gen.Dict.aliasesNamed.any fun a => a.1 == tab && a.2.1 == nm
+      if isAlias then
+        let tagA := s!"{tab},alias"
+        match expectedAlias expectedAliases (packStr tab) nm with
+        | some e =>
+          -- monitor: an alias name must map to the code point the registry intends for it
+          if implBack ≠ some e then
+            .propFail tagA s!"alias-maps-to-unexpected-code-point table={tab} name={nameS} NameIndexed[name]={showOpt implBack} expected={e}"
+          else if mBack ≠ implBack then .diff tagA s!"back={showOpt mBack}"
+          else if !inGen then .diff tagA "alias row missing from Gen.Dict.aliases"
+          else .ok tagA
+        | none =>
+          -- no oracle for this name: not a property failure, but the check cannot vouch for it
+          .diff tagA s!"alias {nameS} -> {showOpt implBack} of table {tab} is not in Dict.expectedAliases (check the registry and add it)"
+      else if mBack ≠ implBack then .diff tag s!"back={showOpt mBack}"
       else if implBack ≠ some v then .diff tag "name-indexed row of the generator is not in the real map"
+      else if inGen then .diff tag "Gen.Dict.aliases lists a canonical name"
       else .ok tag
   | none, _, _, _, _ => .diff "unknown-table" s!"table {c.input.getD "tab" ""} is not in Gen.Dict"
   | _, _, _, _, _ => .bad "dict_rows: bad line"
@@ -129,7 +147,8 @@ def jsonHello (c : Case) : Verdict :=
           parseShape c.output "s", parseShape c.output "r" with
     | some su, some co, some ex, some sImpl, some rImpl =>
       let hasGrease := rImpl.suites.any isGrease || rImpl.exts.any (fun e => isGrease e.id)
-      let tag := s!"{src},ok,exts={sizeClass rImpl.exts.length},{if hasGrease then "grease" else "nogrease"}"
+      let aliasMode := c.input.getD "alias" "0" == "1"
+      let tag := s!"{src},ok,exts={sizeClass rImpl.exts.length},{if hasGrease then "grease" else "nogrease"}{if aliasMode then ",alias" else ""}"
       let jw := c.output.getD "jwire" "?"
       let rw := c.output.getD "rwire" "?"
       -- monitor: the property itself, on the two wire hellos the implementation built
@@ -142,11 +161,18 @@ def jsonHello (c : Case) : Verdict :=
         | some sModel =>
           if sModel ≠ sImpl then .diff tag (showShape sModel)
           else
-            match renderJson tables rImpl with
-            | none => .diff tag "model: renderJson = none (harness rendered a document)"
-            | some d =>
-              if d ≠ ⟨su, co, ex⟩ then .diff tag "model: renderJson differs from the harness rendering"
-              else if sModel ≠ normShape tables rImpl then .diff tag s!"model: decoded shape is not the normalised raw shape {showShape (normShape tables rImpl)}"
+            -- with alias spellings (alias=1) the harness deliberately does not render the canonical names,
+            -- and code points that only an alias spells (0x0202) have no canonical rendering at all
+            let renderOk : Option String :=
+              if aliasMode then none
+              else
+                match renderJson tables rImpl with
+                | none => some "model: renderJson = none (harness rendered a document)"
+                | some d => if d ≠ ⟨su, co, ex⟩ then some "model: renderJson differs from the harness rendering" else none
+            match renderOk with
+            | some msg => .diff tag msg
+            | none =>
+              if sModel ≠ normShape tables rImpl then .diff tag s!"model: decoded shape is not the normalised raw shape {showShape (normShape tables rImpl)}"
               else .ok tag
     | _, _, _, _, _ => .bad "json_hello: bad line"
   | o => .bad s!"json_hello: out={o}"
